@@ -18,7 +18,7 @@ def announced (h : Bytes) : Nat := (h.getD 0 0).toNat * 256 + (h.getD 1 0).toNat
 def readRaw (c : Stream) : Except ReadErr (Bytes × Stream) :=
   match readFull c 2 with
   | .error e => .error e
-  | .ok (h, c) => if announced h ≤ 12 then .error .tooSmall else readFull c (announced h)
+  | .ok (h, c) => if announced h < 12 then .error .tooSmall else readFull c (announced h)
 
 /-- Decode frames until the stream is exhausted (fuel = an upper bound on the
 number of frames; the byte count of the stream always suffices). -/
